@@ -29,8 +29,11 @@ func genScenario(r *Rng) Scenario {
 	var all []int64
 	for s := 0; s < nsess; s++ {
 		ss := Session{End: "stop"}
-		if r.Chance(4, 10) {
+		switch x := r.Intn(100); {
+		case x < 32:
 			ss.End = "kill"
+		case x < 45:
+			ss.End, ss.EndK = "crash-stop", r.PickInt(0, 1, 250, 500, 900, 999)
 		}
 		nsteps := r.Range(1, 6)
 		for k := 0; k < nsteps; k++ {
@@ -69,17 +72,13 @@ func genScenario(r *Rng) Scenario {
 			}
 		}
 		if ss.End == "stop" && r.Chance(1, 2) {
-			kinds := []string{"tindex-renamed", "tindex-torn", "tindex-orphan", "cindex-drop", "cindex-torn", "cindex-stale", "cindex-stale", "pipes-torn", "pipes-drop"}
+			kinds := []string{"tindex-torn", "tindex-torn", "tindex-orphan", "cindex-drop", "cindex-torn", "cindex-stale", "cindex-stale"}
 			n := r.PickInt(1, 1, 1, 2)
 			for i := 0; i < n; i++ {
 				ss.Surgery = append(ss.Surgery, Surgery{Kind: kinds[r.Intn(len(kinds))], K: r.PickInt(0, 1, 250, 500, 900, 999), Part: r.Intn(sc.NParts)})
 			}
-		} else if ss.End == "kill" {
-			// after a kill the pipe definitions of the session are gone: the generator follows the server
-			for n := range exists {
-				delete(exists, n)
-			}
 		}
+		// (the pipe definitions survive a crash: the generator's picture of which pipes exist stays as it is)
 		sc.Sessions = append(sc.Sessions, ss)
 	}
 	// the probe range: around a timestamp that was written
@@ -101,23 +100,31 @@ func corpus() []Scenario {
 	w := func(p int, ts ...int64) Step { return Step{Op: "write", Part: p, Ts: ts} }
 	sy := Step{Op: "sync"}
 	return []Scenario{
-		// C07_clean_refuted: acknowledged, then a graceful stop at once: 40 and the whole of partition 1 are gone
+		// C07_clean (C07_clean_nosync_refuted): acknowledged, then a graceful stop at once: without the sync at shutdown 40 and the whole of partition 1 are gone
 		{Kind: "corpus", NParts: 2, Range: [2]int64{15, 25}, Sessions: []Session{{Steps: []Step{w(0, 10, 20, 30), sy, w(0, 40), w(1, 11)}, End: "stop"}}},
-		// C07_clean_partial: everything flushed before the stop: nothing changes
+		// C07_clean_quiescent: everything flushed before the stop: nothing changes
 		{Kind: "corpus", NParts: 2, Range: [2]int64{15, 25}, Sessions: []Session{{Steps: []Step{w(0, 10, 20, 30), w(1, 11), sy, {Op: "pipe", Name: "pa"}}, End: "stop"}}},
-		// C07_crash_tindex_refuted: crash between Rename and WriteFile; torn WriteFile; empty file
-		{Kind: "corpus", NParts: 1, Range: [2]int64{15, 25}, Sessions: []Session{{Steps: []Step{w(0, 10, 20, 30), sy}, End: "stop", Surgery: []Surgery{{Kind: "tindex-renamed"}}}}},
+		// C07_crash_tindex (C07_crash_tindex_inplace_refuted for a saver that renames tindex.dat away and writes in place):
+		// the server dies inside the write of the tag-index save: nothing written yet / half / all but one byte; no partition at all;
+		// a partition without flushed data at the time of the crash
+		{Kind: "corpus", NParts: 1, Range: [2]int64{15, 25}, Sessions: []Session{{Steps: []Step{w(0, 10, 20, 30), sy}, End: "stop", Surgery: []Surgery{{Kind: "tindex-torn", K: 0}}}}},
 		{Kind: "corpus", NParts: 1, Range: [2]int64{15, 25}, Sessions: []Session{{Steps: []Step{w(0, 10, 20, 30), sy}, End: "stop", Surgery: []Surgery{{Kind: "tindex-torn", K: 500}}}}},
+		{Kind: "corpus", NParts: 1, Range: [2]int64{15, 25}, Sessions: []Session{{Steps: []Step{w(0, 10, 20, 30), sy}, End: "stop", Surgery: []Surgery{{Kind: "tindex-torn", K: 999}}}}},
 		{Kind: "corpus", NParts: 1, Range: [2]int64{15, 25}, Sessions: []Session{{Steps: []Step{}, End: "stop", Surgery: []Surgery{{Kind: "tindex-torn", K: 0}}}}},
-		{Kind: "corpus", NParts: 1, Range: [2]int64{15, 25}, Sessions: []Session{{Steps: []Step{w(0, 10)}, End: "stop", Surgery: []Surgery{{Kind: "tindex-renamed"}}}}},
+		{Kind: "corpus", NParts: 1, Range: [2]int64{15, 25}, Sessions: []Session{{Steps: []Step{w(0, 10)}, End: "kill", Surgery: []Surgery{{Kind: "tindex-torn", K: 500}}}}},
 		{Kind: "corpus", NParts: 2, Range: [2]int64{15, 25}, Sessions: []Session{{Steps: []Step{w(0, 10, 20, 30), w(1, 5), sy}, End: "stop", Surgery: []Surgery{{Kind: "tindex-orphan", Part: 1}}}}},
-		// C07_crash_pipes_refuted: a pipe created since the last clean shutdown, SIGKILL; a torn pipes.dat
+		// C07_crash_pipes (C07_crash_pipes_shutdown_only_refuted): a pipe created since the last clean shutdown, SIGKILL;
+		// the server dies inside the write of the pipes save of the shutdown sequence; a pipe deleted, SIGKILL
 		{Kind: "corpus", NParts: 1, Range: [2]int64{15, 25}, Sessions: []Session{{Steps: []Step{w(0, 10, 20, 30), sy, {Op: "pipe", Name: "pa"}}, End: "kill"}}},
-		{Kind: "corpus", NParts: 1, Range: [2]int64{15, 25}, Sessions: []Session{{Steps: []Step{w(0, 10), sy, {Op: "pipe", Name: "pa"}}, End: "stop", Surgery: []Surgery{{Kind: "pipes-torn", K: 500}}}}},
+		{Kind: "corpus", NParts: 1, Range: [2]int64{15, 25}, Sessions: []Session{{Steps: []Step{w(0, 10), sy, {Op: "pipe", Name: "pa"}}, End: "crash-stop", EndK: 500}}},
+		{Kind: "corpus", NParts: 1, Range: [2]int64{15, 25}, Sessions: []Session{{Steps: []Step{w(0, 10), sy, w(0, 20)}, End: "crash-stop", EndK: 0}, {Steps: []Step{{Op: "pipe", Name: "pa"}, {Op: "pipe", Name: "pb"}, w(0, 30)}, End: "crash-stop", EndK: 900}}},
 		{Kind: "corpus", NParts: 1, Range: [2]int64{15, 25}, Sessions: []Session{{Steps: []Step{{Op: "pipe", Name: "pa"}, {Op: "pipe", Name: "pb"}}, End: "stop"}, {Steps: []Step{{Op: "delpipe", Name: "pa"}}, End: "kill"}}},
 		// C07_crash_cindex_refuted: the snapshot of the previous clean shutdown survives a SIGKILL: 30 and 40 are hidden from RANGE
 		{Kind: "corpus", NParts: 1, Range: [2]int64{25, 45}, Sessions: []Session{{Steps: []Step{w(0, 10, 20), sy}, End: "stop"}, {Steps: []Step{w(0, 30, 40), sy}, End: "kill"}}},
 		{Kind: "corpus", NParts: 1, Range: [2]int64{25, 45}, Sessions: []Session{{Steps: []Step{w(0, 10, 20), sy}, End: "stop"}, {Steps: []Step{w(0, 30, 40), sy}, End: "stop", Surgery: []Surgery{{Kind: "cindex-stale"}}}}},
+		// the time index gets ahead of the journal when a crash loses acknowledged records (recorded finding): 70 and 80 are lost,
+		// 110 and 140 take their positions, RANGE [84:145] starts too late
+		{Kind: "corpus", NParts: 1, Range: [2]int64{84, 145}, Sessions: []Session{{Steps: []Step{w(0, 40), sy}, End: "stop"}, {Steps: []Step{w(0, 70, 80)}, End: "kill"}, {Steps: []Step{w(0, 110, 140), sy}, End: "stop"}}},
 		// missing / torn snapshot: rebuilt from the chunk
 		{Kind: "corpus", NParts: 1, Range: [2]int64{15, 25}, Sessions: []Session{{Steps: []Step{w(0, 10, 20, 30), sy}, End: "stop", Surgery: []Surgery{{Kind: "cindex-drop"}}}}},
 		{Kind: "corpus", NParts: 1, Range: [2]int64{15, 25}, Sessions: []Session{{Steps: []Step{w(0, 10, 20, 30), sy}, End: "stop", Surgery: []Surgery{{Kind: "cindex-torn", K: 500}}}}},
@@ -143,8 +150,6 @@ func gStep(s Step) string {
 
 func gSurgery(s Surgery) string {
 	switch s.Kind {
-	case "tindex-renamed":
-		return "GTRenamed"
 	case "tindex-torn":
 		return GApp("GTTorn", GNat(s.K))
 	case "tindex-orphan":
@@ -153,12 +158,8 @@ func gSurgery(s Surgery) string {
 		return "GCDrop"
 	case "cindex-torn":
 		return GApp("GCTorn", GNat(s.K))
-	case "cindex-stale":
-		return "GCStale"
-	case "pipes-torn":
-		return GApp("GPTorn", GNat(s.K))
 	default:
-		return "GPDrop"
+		return "GCStale"
 	}
 }
 
@@ -167,9 +168,12 @@ func gSession(s Session) string {
 	for i, x := range s.Steps {
 		st[i] = gStep(x)
 	}
-	sg := make([]string, len(s.Surgery))
-	for i, x := range s.Surgery {
-		sg[i] = gSurgery(x)
+	var sg []string
+	if s.End == "crash-stop" {
+		sg = append(sg, GApp("GPTorn", GNat(s.EndK))) // the crash inside the pipes save of the shutdown sequence; nothing else of it ran
+	}
+	for _, x := range s.Surgery {
+		sg = append(sg, gSurgery(x))
 	}
 	return fmt.Sprintf("(mkSession %s %s %s)", GList(st), GBool(s.End == "stop"), GList(sg))
 }
@@ -200,7 +204,7 @@ func gObs(o Obs) string {
 
 // ---------------------------------------------------------------- main
 
-const rule = "scenarios of 1-3 sessions on one server directory (child process): writes to 1-3 partitions (timestamps increasing per partition), explicit flushes (standing for WriteFlushMs passing), pipe create/delete; every session ends by a graceful stop or SIGKILL; after a graceful stop optionally file surgery (tindex renamed back / torn at 0..999 per mille / a record missing, cindex.dat dropped / torn / from the previous shutdown, pipes.dat torn / dropped); every start is observed (refused, or partitions + events + pipes + a RANGE probe). Non-trivial: at least one session wrote events that were flushed, and the scenario has a kill, a surgery or an unflushed acknowledged write at a stop."
+const rule = "scenarios of 1-3 sessions on one server directory (child process): writes to 1-3 partitions (timestamps increasing per partition), explicit flushes (standing for WriteFlushMs passing), pipe create/delete; every session ends by a graceful stop, by SIGKILL, or by a crash injected into the shutdown sequence (the process dies inside the write of its first saver, the pipes save, at 0..999 per mille); after a graceful stop optionally: a crash injected into the tag-index save at the end of Init (a start that dies inside the saver's write at 0..999 per mille), a record removed from tindex.dat, cindex.dat dropped / torn / replaced by the one of the previous shutdown; every start is observed (refused, or partitions + events + pipes + a RANGE probe). Non-trivial: at least one session wrote events that were flushed, and the scenario has a crash, a surgery or an unflushed acknowledged write at a graceful stop."
 
 func run(c *Ctx) error {
 	var scs []Scenario
@@ -257,6 +261,9 @@ func mkCase(sc *Scenario, stream string) (*Case, error) {
 		}
 	}
 	tags = append(tags, fmt.Sprintf("sessions:%d", len(sc.Sessions)))
+	for _, how := range tr.inject {
+		tags = append(tags, "injected-crash-at-"+how)
+	}
 	if len(tr.obs) > 0 && !tr.obs[len(tr.obs)-1].Started {
 		tags = append(tags, "refused-to-start")
 	}
